@@ -889,6 +889,29 @@ def d6(ctx, rep):
             rep.check('D6.format', l, rets[0] if rets else l.node.name, good and good2,
                       'json.dump(to_dict()) <-> from_dict(json.load())', 'the JSON payload is not to_dict()/from_dict()',
                       construct='json payload')
+            # what is written is to_dict() as it is: no entry replaced / removed / added between to_dict() and dump (same on the load side)
+            for fn_, call_, label in ((s, sd[0], 'saved'), (l, ld[0], 'loaded')):
+                var = call_.args[0] if (label == 'saved' and call_.args and isinstance(call_.args[0], ast.Name)) else None
+                if label == 'loaded':
+                    st_ = call_
+                    while st_ is not None and not isinstance(st_, ast.stmt):
+                        st_ = getattr(st_, '_parent', None)
+                    var = st_.targets[0] if isinstance(st_, ast.Assign) and isinstance(st_.targets[0], ast.Name) else None
+                if var is None:
+                    continue
+                edits = []
+                for x in walk_no_nested(fn_.node):
+                    if isinstance(x, (ast.Assign, ast.AugAssign, ast.Delete)):
+                        tg = x.targets if isinstance(x, (ast.Assign, ast.Delete)) else [x.target]
+                        edits += [x for t in tg if isinstance(t, ast.Subscript) and isinstance(t.value, ast.Name) and t.value.id == var.id]
+                    elif isinstance(x, ast.Call) and isinstance(x.func, ast.Attribute) and isinstance(x.func.value, ast.Name) and x.func.value.id == var.id \
+                            and x.func.attr in ('update', 'pop', 'popitem', 'clear', 'setdefault', '__setitem__', '__delitem__'):
+                        edits.append(x)
+                if edits:
+                    rep.bad('D6.format', fn_, edits[0], f'the {label} dict is edited (`{short(edits[0], 60)}`) between {"to_dict() and json.dump" if label == "saved" else "json.load and from_dict"}: '
+                            'load(save(m)) no longer has the parameters of m', construct=f'json payload {label} unchanged')
+                else:
+                    rep.ok('D6.format', fn_, call_, f'the {label} dict is passed on unchanged', construct=f'json payload {label} unchanged')
         else:
             payload = sd[0].args[0] if sd[0].args else None
             rep.check('D6.format', s, sd[0], isinstance(payload, ast.Name) and payload.id == s.self_name,
